@@ -10,6 +10,10 @@ import CookModel.Lemmas.DiagAnalysisMore
 import CookModel.Lemmas.DiagInterRef
 import CookModel.Lemmas.DiagRefChecks
 import CookModel.Lemmas.DiagExact
+import CookModel.Lemmas.ExtLawsEvents
+import CookModel.Lemmas.DiagExactComp
+import CookModel.Lemmas.DiagEmptyValue
+import CookModel.Lemmas.DiagAnalysisExact
 /-
   C07  Diagnostics are sound, complete and placed on the offending construct.
 
@@ -536,7 +540,8 @@ example : ∃ body note s1 s2 s3 s4,
 
 /-- **Empty value.**  Value tokens that do not read as a number (or range) and whose text is blank
     (`@x{ %g}`): `parse_value` pushes exactly `empty-value` (error, parse) labelled with the span of
-    that text, and returns a value located from the first token to the current offset. -/
+    that text, and returns a value located from the first token to the current offset.
+    [Component level: `C07_empty_value_component`, `C07_empty_value_component_blank`.] -/
 theorem C07_empty_value (tokens : List Tok) (s : BP α)
     (hnone : numOrRange (α := α) (s.ext.has Gen.EXT_RANGE_VALUES) tokens = none)
     (hemp : (buildText ((tokens.head?.map (·.start)).getD (curOff s)) tokens).isTextEmpty s.cs = true) :
@@ -545,6 +550,91 @@ theorem C07_empty_value (tokens : List Tok) (s : BP α)
       (parseValue (α := α) tokens s).2 ∧
     (parseValue (α := α) tokens s).1.span = ⟨(tokens.head?.map (·.start)).getD (curOff s), curOff s⟩ :=
   parseValue_empty tokens s hnone hemp
+
+/-- **Empty value, at the level of `parse_quantity` and of the ingredient** (lifts `C07_empty_value`).
+    The quantity tokens between the braces are `pre ++ lk ++ vt ++ [%] ++ ut`: blanks/comments `pre`
+    (`scaling_lock` eats them), an optional lock token `=` (`lk`), value tokens `vt` without `%` that do
+    not read as a number/range and whose text is blank, the `%`, the unit tokens.  (Without a lock the
+    value tokens cannot start with a blank or `=`: the blank would belong to `pre`.)  Then, under EVERY
+    extension set, `parse_quantity` pushes EXACTLY `empty-value` (error, parse, labelled with the span
+    of the blank value text) followed by `empty-unit` iff the unit text is blank too, and returns the
+    lock and the unit; and an ingredient cut into no modifier tokens, a non-blank name without alias
+    separator and these quantity tokens returns the ingredient with that quantity and pushes exactly
+    these events.  `{ %g}`, `{=%g}`, `{= %g}`, `{ = %g}`. -/
+theorem C07_empty_value_component (s : BP α) (pre lk vt ut : List Tok) (pct : Tok)
+    (hpre : ∀ t ∈ pre, isWsComment t.kind = true)
+    (hlk : lk = [] ∨ ∃ e, lk = [e] ∧ e.kind = .eq)
+    (hhead : lk = [] → ∀ t0, vt.head? = some t0 → isWsComment t0.kind = false ∧ t0.kind ≠ .eq)
+    (hvp : ∀ t ∈ vt, t.kind ≠ .percent) (hp : pct.kind = .percent)
+    (hnone : numOrRange (α := α) (s.ext.has Gen.EXT_RANGE_VALUES) vt = none)
+    (hemp : (buildText ((vt.head?.map (·.start)).getD
+      (offAt (pre ++ (lk ++ (vt ++ pct :: ut))) (pre.length + lk.length + vt.length))) vt).isTextEmpty s.cs = true) :
+    (Pushed (emptyValueEv (buildText ((vt.head?.map (·.start)).getD
+          (offAt (pre ++ (lk ++ (vt ++ pct :: ut))) (pre.length + lk.length + vt.length))) vt) ::
+        emptyUnitEvs pct ut s.cs) s (parseQuantity (α := α) (pre ++ (lk ++ (vt ++ pct :: ut))) s).2 ∧
+      (parseQuantity (α := α) (pre ++ (lk ++ (vt ++ pct :: ut))) s).1.quantity.val.unit =
+        (if (buildText pct.stop ut).isTextEmpty s.cs then none else some (buildText pct.stop ut)) ∧
+      (parseQuantity (α := α) (pre ++ (lk ++ (vt ++ pct :: ut))) s).1.quantity.val.value.lock = lockSpan lk) ∧
+    (∀ s1 s2 s3 s4 body note, body.quantity = some (pre ++ (lk ++ (vt ++ pct :: ut))) →
+      (s.ext.has Gen.EXT_COMPONENT_ALIAS = false ∨ ∀ t ∈ body.name, t.kind ≠ .or) →
+      (buildText (curOff s2) body.name).isTextEmpty s.cs = false → noteP s3 = (note, s4) →
+      Cut .at s [] body s1 s2 s3 →
+      (∃ q : Loc (PQuantity α), (ingredientP s).1 = some (.ingredient
+          ⟨⟨⟨Modifiers.empty, Span.pos (curOff s1)⟩, none, buildText (curOff s2) body.name, none, some q, note⟩,
+           ⟨curOff s, curOff s4⟩⟩) ∧ q.val.value.lock = lockSpan lk ∧
+          q.val.unit = (if (buildText pct.stop ut).isTextEmpty s.cs then none else some (buildText pct.stop ut))) ∧
+      Pushed (emptyValueEv (buildText ((vt.head?.map (·.start)).getD
+          (offAt (pre ++ (lk ++ (vt ++ pct :: ut))) (pre.length + lk.length + vt.length))) vt) ::
+        emptyUnitEvs pct ut s.cs) s (ingredientP s).2) := by
+  refine ⟨c07e_parseQuantity_empty pre lk vt ut pct s hpre hlk hhead hvp hp hnone hemp, ?_⟩
+  intro s1 s2 s3 s4 body note hq ha hn hnote hc
+  have q4 : Same s s4 := hc.same.trans (noteP_same hnote)
+  have ht := c07e_ingredientTail_q (α := α) (curOff s) (curOff s4) (curOff s1) (curOff s2) body note s4 _ hq
+    (by rw [q4.2.1]; exact ha) (by rw [q4.1]; exact hn)
+    (emptyValueEv (buildText ((vt.head?.map (·.start)).getD
+      (offAt (pre ++ (lk ++ (vt ++ pct :: ut))) (pre.length + lk.length + vt.length))) vt) ::
+        emptyUnitEvs pct ut s.cs)
+    (fun r => r.quantity.val.unit =
+        (if (buildText pct.stop ut).isTextEmpty s.cs then none else some (buildText pct.stop ut)) ∧
+      r.quantity.val.value.lock = lockSpan lk)
+    (fun sq qq => by
+      have h := c07e_parseQuantity_empty pre lk vt ut pct sq hpre hlk hhead hvp hp
+        (by rw [qq.2.1, q4.2.1]; exact hnone) (by rw [qq.1, q4.1]; exact hemp)
+      rw [qq.1, q4.1] at h
+      exact h)
+  unfold Sat at ht
+  rw [← ingredientP_cut hc hnote] at ht
+  obtain ⟨p, q, ⟨hu, hl⟩, hr⟩ := ht
+  exact ⟨⟨q.quantity, hr, hl, hu⟩, (q4.pushed.trans p).cast (by simp)⟩
+
+/-- **… the two spellings named in the catalogue: `@x{ %g}` and `@x{=%g}`** (no value token at all).
+    With `vt = []` the two hypotheses on the value hold by themselves, and the label of `empty-value` is
+    the POSITION right after the blanks and the lock, i.e. where the value should have been. -/
+theorem C07_empty_value_component_blank (s : BP α) :
+    numOrRange (α := α) (s.ext.has Gen.EXT_RANGE_VALUES) [] = none ∧
+    (∀ off, (buildText ((([] : List Tok).head?.map (·.start)).getD off) []).isTextEmpty s.cs = true) ∧
+    (∀ off, emptyValueEv (α := α) (buildText ((([] : List Tok).head?.map (·.start)).getD off) []) =
+      .error ⟨.error, .parse, "empty-value", [Span.pos off]⟩) := by
+  refine ⟨?_, fun off => rfl, fun off => rfl⟩
+  cases s.ext.has Gen.EXT_RANGE_VALUES <;> rfl
+
+/-! non-vacuity: `@x{ %g}` and `@x{=%g}`: the cut exists, the quantity tokens have the shape
+    `pre ++ lk ++ [] ++ [%] ++ ut`, and `ingredient` pushes exactly one `empty-value` at offset 4 -/
+def C07_exEmptyVal : BP Rat :=
+  ⟨[⟨.at, ['@'], 0⟩, ⟨.word, ['x'], 1⟩, ⟨.openBrace, ['{'], 2⟩, ⟨.ws, [' '], 3⟩, ⟨.percent, ['%'], 4⟩,
+    ⟨.word, ['g'], 5⟩, ⟨.closeBrace, ['}'], 6⟩], 0, ⟨0⟩, toyCharSpec, #[], none⟩
+example : ∃ body note s1 s2 s3 s4, Cut .at C07_exEmptyVal [] body s1 s2 s3 ∧ noteP s3 = (note, s4) ∧
+    body.quantity = some ([⟨.ws, [' '], 3⟩] ++ ([] ++ ([] ++ ⟨.percent, ['%'], 4⟩ :: [⟨.word, ['g'], 5⟩]))) ∧
+    (buildText (curOff s2) body.name).isTextEmpty C07_exEmptyVal.cs = false :=
+  ⟨_, _, _, _, _, _, ⟨⟨_, rfl⟩, rfl, rfl⟩, rfl, rfl, rfl⟩
+example : (ingredientP C07_exEmptyVal).2.evs = #[.error ⟨.error, .parse, "empty-value", [⟨4, 4⟩]⟩] := rfl
+def C07_exEmptyValLock : BP Rat :=
+  ⟨[⟨.at, ['@'], 0⟩, ⟨.word, ['x'], 1⟩, ⟨.openBrace, ['{'], 2⟩, ⟨.eq, ['='], 3⟩, ⟨.percent, ['%'], 4⟩,
+    ⟨.word, ['g'], 5⟩, ⟨.closeBrace, ['}'], 6⟩], 0, ⟨0⟩, toyCharSpec, #[], none⟩
+example : ∃ body s1 s2 s3, Cut .at C07_exEmptyValLock [] body s1 s2 s3 ∧
+    body.quantity = some ([] ++ ([⟨.eq, ['='], 3⟩] ++ ([] ++ ⟨.percent, ['%'], 4⟩ :: [⟨.word, ['g'], 5⟩]))) :=
+  ⟨_, _, _, _, ⟨⟨_, rfl⟩, rfl, rfl⟩, rfl⟩
+example : (ingredientP C07_exEmptyValLock).2.evs = #[.error ⟨.error, .parse, "empty-value", [⟨4, 4⟩]⟩] := rfl
 
 /-! non-vacuity: `( )`, `(~=1)`, `(-1)` as token lists; a blank value -/
 example : ([⟨.ws, [' '], 3⟩] : List Tok).filter nonBlankTok = [] := by decide
@@ -836,6 +926,69 @@ theorem C07_reference_checks_cookware (input : Str) (lc : Loc (PCookware α)) (c
 /-! non-vacuity: a definition made outside a step -/
 example : ircDefinedInStep (⟨[], none, none, none, none, ⟨.definition [] false, none⟩, Modifiers.empty⟩ :
     Ingredient (ScalableValue Rat)) = false := rfl
+
+/-! ### Analysis stage: "pushes X only when Y" -/
+
+/-- **`resolve_reference`, exactly.**  From every collector state the function appends EXACTLY the list
+    `refDiags` (a pure function of the modifiers, the existing components, the name and the two modes
+    `[define]` / `[duplicate]`: at most `redundant-new`, or `redundant-ref` followed by one of
+    `ref-conflicting-modifiers` / `reference-not-found`) to the diagnostics and changes nothing else.
+    Consequently, for the three error entries of the catalogue the completeness theorems
+    (`C07_reference_not_found`, `C07_new_and_ref_conflict`, `C07_ref_conflicting_modifiers`) become
+    equivalences:
+    * a diagnostic of kind `reference-not-found` is pushed IFF the component is not `+`, no earlier
+      non-reference component has the name, and it is `&` or the define mode is `steps`; it is then the
+      error labelled with the component's span;
+    * a diagnostic of kind `ref-conflicting-modifiers` is pushed IFF the component is `+&`, or it is not
+      `+`, is treated as a reference (`&`, define mode `steps`, or duplicate mode `reference`), its
+      definition is found at `refTo` and it carries a modifier bit the definition lacks
+      (`refConflictBits ≠ 0`); it is then the error labelled with the modifiers' span. -/
+theorem C07_resolve_reference_exact (env : Env) (container : String) (inherit : Nat)
+    (existing : List (Str × Modifiers)) (name : Str) (mods : Modifiers) (location modLoc : Span) (s : Col α) :
+    (resolveReference env container inherit existing name mods location modLoc s).2.diags.toList =
+      s.diags.toList ++ refDiags env inherit existing name mods location modLoc s.defineMode s.duplicateMode ∧
+    (resolveReference env container inherit existing name mods location modLoc s).2 =
+      { s with diags := (resolveReference env container inherit existing name mods location modLoc s).2.diags } ∧
+    ((∃ d ∈ refDiags env inherit existing name mods location modLoc s.defineMode s.duplicateMode,
+        d.kind = "reference-not-found") ↔
+      (mods.contains Modifiers.NEW = false ∧ sameNameIdx env existing name = none ∧
+        (mods.contains Modifiers.REF = true ∨ s.defineMode = .steps))) ∧
+    ((∃ d ∈ refDiags env inherit existing name mods location modLoc s.defineMode s.duplicateMode,
+        d.kind = "ref-conflicting-modifiers") ↔
+      ((mods.contains Modifiers.NEW = true ∧ mods.contains Modifiers.REF = true) ∨
+       (mods.contains Modifiers.NEW = false ∧
+        (mods.contains Modifiers.REF = true ∨ s.defineMode = .steps ∨ s.duplicateMode = .reference) ∧
+        ∃ refTo, sameNameIdx env existing name = some refTo ∧
+          refConflictBits mods ⟨(((existing[refTo]?).map (·.2)).getD Modifiers.empty).bits &&& inherit⟩ ≠ 0))) ∧
+    (∀ d ∈ refDiags env inherit existing name mods location modLoc s.defineMode s.duplicateMode,
+      (d.kind = "reference-not-found" → d = ⟨.error, .analysis, "reference-not-found", [location]⟩) ∧
+      (d.kind = "ref-conflicting-modifiers" → d = ⟨.error, .analysis, "ref-conflicting-modifiers", [modLoc]⟩)) := by
+  obtain ⟨h1, h2⟩ := c07a_resolveReference_exact env container inherit existing name mods location modLoc s
+  obtain ⟨k1, k2, k3⟩ := c07a_refDiags_kinds env inherit existing name mods location modLoc s.defineMode s.duplicateMode
+  exact ⟨h1, h2, k1, k2, k3⟩
+
+/-- **`resolve_intermediate_ref`, exactly** (completes `C07_intermediate_ref_errors`): for a non-negative
+    value it appends EXACTLY `interRefDiags` — the one analysis error of the kind computed by
+    `interRefTarget`, labelled with the data's span, when the target does not exist, and NOTHING when it
+    does — changes nothing else, and returns no relation iff the target computation fails. -/
+theorem C07_intermediate_ref_exact (d : Loc InterData) (s : Col α) (hv : 0 ≤ d.val.val) :
+    (resolveInterRef d s).2.diags.toList = s.diags.toList ++ interRefDiags s.cur.content s.sections.length d ∧
+    (resolveInterRef d s).2 = { s with diags := (resolveInterRef d s).2.diags } ∧
+    ((resolveInterRef d s).1 = none ↔ ∃ kind, interRefTarget s.cur.content s.sections.length d.val = .error kind) ∧
+    (∀ rel, interRefTarget s.cur.content s.sections.length d.val = .ok rel →
+      interRefDiags s.cur.content s.sections.length d = []) ∧
+    (∀ kind, interRefTarget s.cur.content s.sections.length d.val = .error kind →
+      interRefDiags s.cur.content s.sections.length d = [⟨.error, .analysis, kind, [d.span]⟩]) := by
+  obtain ⟨h1, h2, h3⟩ := c07a_resolveInterRef_exact d s hv
+  refine ⟨h1, h2, h3, fun rel h => ?_, fun kind h => ?_⟩
+  · unfold interRefDiags; rw [h]
+  · unfold interRefDiags; rw [h]; rfl
+
+/-! non-vacuity: a plain component in the default modes gets no diagnostic from `resolve_reference`;
+    `&x` without a definition gets exactly `reference-not-found` -/
+example : refDiags C01_toyEnv 0 [] ['x'] Modifiers.empty ⟨0, 2⟩ ⟨1, 1⟩ .all .new = [] := by decide
+example : refDiags C01_toyEnv 0 [] ['x'] ⟨Modifiers.REF⟩ ⟨0, 3⟩ ⟨1, 2⟩ .all .new =
+    [⟨.error, .analysis, "reference-not-found", [⟨0, 3⟩]⟩] := by decide
 
 /-! ### Soundness, simplest shape -/
 
@@ -1158,7 +1311,9 @@ example : ∃ body s1 s2 s3, Cut .tilde C07_exTimerNote [] body s1 s2 s3 ∧
     * if whitespace is there, or the block ends (`@ x`, `@`), nothing is pushed.
     (When a word/number token is at the cursor the attempt succeeds and pushes nothing:
     `C07_component_cut`.)  Partial: that `ingredient`/`cookware`/`timer` reach this attempt exactly
-    when the long form `name{…}` is absent is not lifted to the component here. -/
+    when the long form `name{…}` is absent is not lifted to the component here.
+    [Now lifted: `C07_component_declines`, `C07_invalid_single_word_name` (both directions),
+    `C07_invalid_single_word_name_then_text`.] -/
 theorem C07_invalid_single_word_name_partial (s : BP α)
     (hns : ∀ t, s.toks[s.cur]? = some t → isShortK t.kind = false) :
     compBodyShort s = (none, pushAll (singleWordWarn s) s) ∧
@@ -1183,6 +1338,112 @@ example : let s : BP Rat := ⟨[⟨.at, ['@'], 0⟩, ⟨.punct, ['!'], 1⟩], 1,
   intro t ht
   simp only [List.getElem?_cons_succ, List.getElem?_cons_zero, Option.some.injEq] at ht
   subst ht; rfl
+
+/-! ### `invalid-single-word-name` at the level of the component and of the step loop
+
+  `Head k s mtoks s1 s2`: from state `s` the marker `k` was consumed (state `s1`) and `modifiers()`
+  returned `mtoks` (state `s2`; these two steps push nothing: `Head.same`).
+  `longBody r`: the long form `name{…}` read from the tokens `r` — the tokens up to the first `{` with no
+  marker before it, then the tokens up to the first `}` — or `none` when there is none (no `{` before the
+  next marker, or no `}` after it).  `s2.rest` = the tokens from the cursor on.
+  `isShortK k`: `k` is a word / number token (what a single-word name is made of). -/
+
+/-- **When do `ingredient` / `cookware` / `timer` decline?**  After the marker and the modifiers the
+    parser returns `None` EXACTLY when no long form `name{…}` lies ahead and the token at the cursor is
+    not a word/number token (or the block ends); without the marker at the cursor it returns `None`
+    and changes nothing. -/
+theorem C07_component_declines (s s1 s2 : BP α) (mtoks : List Tok) :
+    (Head .at s mtoks s1 s2 → ((ingredientP s).1 = none ↔
+      (longBody s2.rest = none ∧ ∀ t, s2.toks[s2.cur]? = some t → isShortK t.kind = false))) ∧
+    (Head .hash s mtoks s1 s2 → ((cookwareP s).1 = none ↔
+      (longBody s2.rest = none ∧ ∀ t, s2.toks[s2.cur]? = some t → isShortK t.kind = false))) ∧
+    (Head .tilde s mtoks s1 s2 → ((timerP s).1 = none ↔
+      (longBody s2.rest = none ∧ ∀ t, s2.toks[s2.cur]? = some t → isShortK t.kind = false))) ∧
+    ((∀ t, s.toks[s.cur]? = some t → t.kind ≠ .at) → ingredientP s = (none, s)) ∧
+    ((∀ t, s.toks[s.cur]? = some t → t.kind ≠ .hash) → cookwareP s = (none, s)) ∧
+    ((∀ t, s.toks[s.cur]? = some t → t.kind ≠ .tilde) → timerP s = (none, s)) := by
+  obtain ⟨h1, h2, h3⟩ := c07x_comp_none_iff (α := α) (s := s) (s1 := s1) (s2 := s2) (mtoks := mtoks)
+  obtain ⟨n1, n2, n3⟩ := c07x_comp_nomarker s
+  exact ⟨fun hh => (h1 hh).trans (c07x_compBody_none_iff s2), fun hh => (h2 hh).trans (c07x_compBody_none_iff s2),
+    fun hh => (h3 hh).trans (c07x_compBody_none_iff s2), n1, n2, n3⟩
+
+/-- **Invalid single-word name, at the level of the component, exactly** (lifts
+    `C07_invalid_single_word_name_partial`; `@!x`, `#(`, `~,`).
+    (⇐) When the parser declines after the marker and the modifiers (`C07_component_declines`), the run
+    is exactly: no component, the cursor after the modifiers, and the events `singleWordWarn s2` pushed —
+    the one warning `invalid-single-word-name` (warning, parse, labelled with the position after the
+    marker/modifiers) iff a token other than whitespace is at the cursor, nothing otherwise.
+    (⇒) Conversely, for EVERY state: if the warning `invalid-single-word-name` with labels `sp` is among
+    the events a run of `ingredient` (`cookware`, `timer`) pushed, then the marker was there, no long
+    form `name{…}` lies ahead after the modifiers, the token at that cursor exists, is not whitespace and
+    not a word/number token, `sp` is that position, the parser returned `None`, and the events pushed
+    are exactly that one warning.  No other part of the three parsers (alias, modifiers, quantity,
+    note, timer checks) ever pushes this warning. -/
+theorem C07_invalid_single_word_name (s : BP α) :
+    (∀ s1 s2 mtoks, longBody s2.rest = none → (∀ t, s2.toks[s2.cur]? = some t → isShortK t.kind = false) →
+      (Head .at s mtoks s1 s2 → ingredientP s = (none, pushAll (singleWordWarn s2) s2)) ∧
+      (Head .hash s mtoks s1 s2 → cookwareP s = (none, pushAll (singleWordWarn s2) s2)) ∧
+      (Head .tilde s mtoks s1 s2 → timerP s = (none, pushAll (singleWordWarn s2) s2))) ∧
+    (∀ (k : TK) (compP : P α (Option (Ev α))),
+      ((k = .at ∧ compP = ingredientP) ∨ (k = .hash ∧ compP = cookwareP) ∨ (k = .tilde ∧ compP = timerP)) →
+      ∀ l' sp, (compP s).2.evs.toList = s.evs.toList ++ l' →
+        Ev.warning ⟨.warning, .parse, "invalid-single-word-name", sp⟩ ∈ l' →
+        ∃ mtoks s1 s2, Head k s mtoks s1 s2 ∧ longBody s2.rest = none ∧
+          (∃ t, s2.toks[s2.cur]? = some t ∧ t.kind ≠ .ws ∧ isShortK t.kind = false) ∧
+          sp = [Span.pos (curOff s2)] ∧ compP s = (none, pushAll (singleWordWarn s2) s2) ∧
+          l' = [.warning ⟨.warning, .parse, "invalid-single-word-name", [Span.pos (curOff s2)]⟩]) := by
+  refine ⟨fun s1 s2 mtoks hl hns => ?_, ?_⟩
+  · have hb := c07x_compBody_decline s2 hl hns
+    exact ⟨fun hh => c07x_ingredientP_of_body_none hh hb, fun hh => c07x_cookwareP_of_body_none hh hb,
+      fun hh => c07x_timerP_of_body_none hh hb⟩
+  · intro k compP hk l' sp hl' hmem
+    have key : ∃ mtoks s1 s2, Head k s mtoks s1 s2 ∧ longBody s2.rest = none ∧
+        (∃ t, s2.toks[s2.cur]? = some t ∧ t.kind ≠ .ws ∧ isShortK t.kind = false) ∧
+        sp = [Span.pos (curOff s2)] ∧ compP s = (none, pushAll (singleWordWarn s2) s2) ∧
+        l' = singleWordWarn s2 := by
+      rcases hk with ⟨rfl, rfl⟩ | ⟨rfl, rfl⟩ | ⟨rfl, rfl⟩
+      · exact c07x_sw_only_when .at ingredientP s (c07x_comp_nomarker s).1
+          (fun _ _ _ _ hh hb => c07x_ingredientP_of_body_none hh hb)
+          (fun _ _ _ _ _ hc => c07x_ingredientP_succ_notSW hc) l' hl' sp hmem
+      · exact c07x_sw_only_when .hash cookwareP s (c07x_comp_nomarker s).2.1
+          (fun _ _ _ _ hh hb => c07x_cookwareP_of_body_none hh hb)
+          (fun _ _ _ _ _ hc => c07x_cookwareP_succ_notSW hc) l' hl' sp hmem
+      · exact c07x_sw_only_when .tilde timerP s (c07x_comp_nomarker s).2.2
+          (fun _ _ _ _ hh hb => c07x_timerP_of_body_none hh hb)
+          (fun _ _ _ _ _ hc => c07x_timerP_succ_notSW hc) l' hl' sp hmem
+    obtain ⟨mtoks, s1, s2, hh, hl, ⟨t, ht, hw, hk'⟩, hsp, hrun, hl''⟩ := key
+    refine ⟨mtoks, s1, s2, hh, hl, ⟨t, ht, hw, hk'⟩, hsp, hrun, ?_⟩
+    rw [hl'']
+    unfold singleWordWarn curOff
+    simp only [ht, hw, if_false]
+
+/-- **… and the component is then text.**  In the loop body of `parse_step` (`stepOne`), from a state
+    without an earlier panic and the cursor inside the block: when the component parser declines after
+    the marker and the modifiers, `with_recover` puts the cursor back on the marker, the events pushed
+    are exactly `singleWordWarn s2`, and the iteration continues as the TEXT branch (`stepTail none`:
+    the marker token and everything up to the next marker become a text item) from that state. -/
+theorem C07_invalid_single_word_name_then_text (s s1 s2 : BP α) (mtoks : List Tok) (hp : s.panic = none)
+    (hcur : s.cur ≤ s.toks.length) (hl : longBody s2.rest = none)
+    (hns : ∀ t, s2.toks[s2.cur]? = some t → isShortK t.kind = false)
+    (hh : Head .at s mtoks s1 s2 ∨ Head .hash s mtoks s1 s2 ∨ Head .tilde s mtoks s1 s2) :
+    stepOne s = stepTail none (pushAll (singleWordWarn s2) s) :=
+  c07x_stepOne_decline hp hcur hl hns hh
+
+/-! non-vacuity: `@!x` — after the `@` no `{` follows and `!` is no word token; one warning at offset 1;
+    the loop body then yields that warning and one text event -/
+def C07_exBang : BP Rat :=
+  ⟨[⟨.at, ['@'], 0⟩, ⟨.punct, ['!'], 1⟩, ⟨.word, ['x'], 2⟩], 0, ⟨0⟩, toyCharSpec, #[], none⟩
+example : ∃ s1 s2, Head .at C07_exBang [] s1 s2 ∧ longBody s2.rest = none ∧
+    (∀ t, s2.toks[s2.cur]? = some t → isShortK t.kind = false) ∧
+    singleWordWarn s2 = [.warning ⟨.warning, .parse, "invalid-single-word-name", [⟨1, 1⟩]⟩] := by
+  refine ⟨_, _, ⟨⟨_, rfl⟩, rfl⟩, rfl, ?_, rfl⟩
+  intro t ht
+  have : t = ⟨.punct, ['!'], 1⟩ := by
+    have h : (some ⟨.punct, ['!'], 1⟩ : Option Tok) = some t := ht
+    exact (Option.some.inj h).symm
+  subst this; rfl
+example : ∃ t, (stepOne C07_exBang).2.evs =
+    #[.warning ⟨.warning, .parse, "invalid-single-word-name", [⟨1, 1⟩]⟩, .text t] := ⟨_, rfl⟩
 
 /-! ### Soundness on whole recipes
 
@@ -1231,7 +1492,9 @@ theorem C07_sound_recipe_steps (env : Env) (pre : List Tok) (doc : List (List Se
     diagnostic, is valid and does not panic.  (`env` is the environment the document was checked
     against, with the two flags off.)
     Missing: discharging `hirr` here; Props/C02's lemma files (Lemmas/ExtLaws) and this file's
-    (Lemmas/RoundtripComp) cannot be imported together because both declare `withRecover_run`. -/
+    (Lemmas/RoundtripComp) cannot be imported together because both declare `withRecover_run`.
+    [Now: the clash is resolved and `hirr` is discharged by C02's theorem in
+    `C07_sound_recipe_steps_all_extensions`.] -/
 theorem C07_sound_recipe_steps_all_extensions_partial (env : Env)
     (pre : List Tok) (doc : List (List SegX × List Tok))
     (hadv : env.ext.has Gen.EXT_ADVANCED_UNITS = false) (hinl : env.ext.has Gen.EXT_INLINE_QUANTITIES = false)
@@ -1246,6 +1509,53 @@ theorem C07_sound_recipe_steps_all_extensions_partial (env : Env)
     (parseRecipe (α := α) { env with ext := e } (render (pre ++ docSpec (stepsDoc doc)))).panic = none := by
   rw [hirr e]
   exact C07_sound_recipe_steps env pre doc hadv hinl hpre hok hsimple hseps hw hfm
+
+/-- **… under EVERY extension set, composed with C02.**  The hypothesis `hirr` of the partial theorem
+    above is discharged by `C02_parse_ext_irrelevant` (Lemmas/ExtLawsEvents `parseRecipe_ext_irrelevant`):
+    it is replaced by C02's own PREMISES, two decidable checks on the printed text — every block of
+    its token stream is `UsesNone` (no modifier character after a marker, no `|` in a name, no `-`
+    in an amount, an amount shape the advanced-units reader declines, every timer has an amount) and
+    its events satisfy `evConvCore` (no step text is empty or holds an inline quantity for the
+    converter; a timer's amount is numeric and its unit a time unit) — and that the character table
+    classifies the ASCII space as whitespace.  Then for a well-formed document of steps (the class of
+    `C07_sound_recipe_steps`, checked against `env` with ADVANCED_UNITS and INLINE_QUANTITIES off)
+    `CooklangParser::parse` reports NO diagnostic, is valid and reaches no panic site under ALL raw
+    extension patterns `e`, the two flags included. -/
+theorem C07_sound_recipe_steps_all_extensions (env : Env) (hws : env.cs.uws ' ' = true)
+    (pre : List Tok) (doc : List (List SegX × List Tok))
+    (hadv : env.ext.has Gen.EXT_ADVANCED_UNITS = false) (hinl : env.ext.has Gen.EXT_INLINE_QUANTITIES = false)
+    (hpre : blankLinesOK pre = true) (hok : ∀ d ∈ doc, (DocItem.step d.1).ok env.cs env.ext = true)
+    (hsimple : ∀ d ∈ doc, d.1.all SegX.simple = true) (hseps : sepsOK (doc.map (·.2)) = true)
+    (hw : WellSpelled env.cs (pre ++ docSpec (stepsDoc doc)))
+    (hfm : parseFrontmatter env.cs (render (pre ++ docSpec (stepsDoc doc))) = none)
+    (hu : UsesNoneInput env.cs (render (pre ++ docSpec (stepsDoc doc))) = true)
+    (hconv : (pullEvents (α := α) env.cs env.ext (render (pre ++ docSpec (stepsDoc doc)))).1.toList.all
+      (evConvCore α env) = true) (e : Ext) :
+    (parseRecipe (α := α) { env with ext := e } (render (pre ++ docSpec (stepsDoc doc)))).diags = #[] ∧
+    (parseRecipe (α := α) { env with ext := e } (render (pre ++ docSpec (stepsDoc doc)))).isValid = true ∧
+    (parseRecipe (α := α) { env with ext := e } (render (pre ++ docSpec (stepsDoc doc)))).panic = none :=
+  C07_sound_recipe_steps_all_extensions_partial env pre doc hadv hinl hpre hok hsimple hseps hw hfm
+    (fun e' => parseRecipe_ext_irrelevant env (keyTestsAgree_of_space env.cs hws) e' _ hu hconv) e
+
+/-! non-vacuity of `C07_sound_recipe_steps_all_extensions`: `Mix @salt{} for ~{10%min}.` with a converter
+    that knows the time unit `min`, every extension off in `env`: all hypotheses hold -/
+def C07_coreEnv : Env :=
+  ⟨toyCharSpec, ⟨0⟩, fun u => if u = ['m','i','n'] then some 0 else none, fun _ _ => .ok, fun c => [c], 0⟩
+def C07_coreDoc : List (List SegX × List Tok) :=
+  [([.text [tk .word "Mix".toList, tk .ws [' ']], .ingredient { name := [tk .word "salt".toList] } {},
+     .text [tk .ws [' '], tk .word "for".toList, tk .ws [' ']], .timer C01_exTimerAnon {},
+     .text [tk .dot ['.']]], [C01_nl])]
+example : render (docSpec (stepsDoc C07_coreDoc)) = "Mix @salt{} for ~{10%min}.\n".toList := by decide
+example : C07_coreEnv.cs.uws ' ' = true := by decide
+example : C07_coreEnv.ext.has Gen.EXT_ADVANCED_UNITS = false ∧ C07_coreEnv.ext.has Gen.EXT_INLINE_QUANTITIES = false ∧
+    (∀ d ∈ C07_coreDoc, (DocItem.step d.1).ok C07_coreEnv.cs C07_coreEnv.ext = true) ∧
+    (∀ d ∈ C07_coreDoc, d.1.all SegX.simple = true) ∧ sepsOK (C07_coreDoc.map (·.2)) = true := by decide
+example : WellSpelled toyCharSpec (docSpec (stepsDoc C07_coreDoc)) := by decide
+example : parseFrontmatter toyCharSpec (render (docSpec (stepsDoc C07_coreDoc))) = none := by decide
+example : UsesNoneInput C07_coreEnv.cs (render ([] ++ docSpec (stepsDoc C07_coreDoc))) = true := by decide +kernel
+example : (pullEvents (α := Rat) C07_coreEnv.cs C07_coreEnv.ext
+    (render ([] ++ docSpec (stepsDoc C07_coreDoc)))).1.toList.all (evConvCore Rat C07_coreEnv) = true := by
+  decide +kernel
 
 /-! non-vacuity: the example recipe of C01 (`Add @salt{=1%tsp} to the #pot{}` / `~{10%min} wait`) and the
     example document of `C01_recipe_steps` satisfy the hypotheses (shown in Props/C01.lean); the
